@@ -103,9 +103,11 @@ EXPORT int sprintf_s(char *restrict dest, rsize_t dmax,
     int ret;
     va_start(va, fmt);
 #if defined SAFECLIB_HAVE_C99
-    ret = _vsnprintf_s_chk(dest, dmax, destbos, fmt, va);
+    /* not the truncating _vsnprintf_s_chk: a text of dmax characters leaves
+       no room for the terminating null and is an error */
+    ret = _vsprintf_s_chk(dest, dmax, destbos, fmt, va);
 #else
-    ret = vsnprintf_s(dest, dmax, fmt, va);
+    ret = vsprintf_s(dest, dmax, fmt, va);
 #endif
     va_end(va);
     return ret;
